@@ -34,9 +34,9 @@
                         `OnUnhandledError` (failures no one can receive).
    * `finalizers_*`     `Unsubscribe` runs every finalizer whatever subset panics and re-raises
                         exactly their `unsubscriptionError`s, joined, after the loop.
-   * `go_statements_recovered_partial`  (F) every `go` statement / `time.AfterFunc` of the regenerated
-                        catalogue that calls user code is wrapped in `recoverUnhandledError` — except
-                        the listed one (`Future`).
+   * `go_statements_recovered`  (F) every `go` statement / `time.AfterFunc` of the regenerated
+                        catalogue that calls user code is wrapped in `recoverUnhandledError` (no
+                        exception since fix 8bf73dd repaired `Future`).
 
   Deviations of the pinned tree (each: witness theorem by `decide`, the `_partial` that excludes
   exactly that class, a known finding replayed on the real code):
@@ -50,8 +50,9 @@
          position only). With `Tap`, a Next-callback panic followed by a panic of the error callback
          that receives it loses the first cause altogether (`tap_first_cause_lost_witness`;
          `every_failure_reaches_someone` requires `Forwards`, which `Tap` does not satisfy).
-   (iii) `Future` runs the user's factory on a bare goroutine (`future_unrecovered_witness`,
-         `future_crash`).
+   (iii) `Future`: its bare goroutine was repaired (8bf73dd: a panicking factory no longer kills the
+         process); what remains is of class (ii): the panic goes to the unhandled hook and the
+         subscriber never gets a terminal (`future_factory_panic_witness`, `future_partial`).
    (v)   a panicking teardown is re-raised to whoever triggered the unsubscription: into the
          producer's goroutine for a hot source (`teardown_panic_escapes_witness`), into the caller
          of `Unsubscribe` (`teardown_panic_unsubscribe_witness`); inside `Subscribe` it is recovered
@@ -261,20 +262,22 @@ theorem go_user_code_never_crashes (known : List String) (t : List Facts.OpFact)
   rw [goOK_sound known t h r hr g hg hu hk]
   exact goBody_recovered p
 
-/-- decided on the table regenerated from the source on this run -/
-theorem go_statements_recovered_partial : goOK ["Future"] RoGen.Catalogue.table = true := by decide
+/-- decided on the table regenerated from the source on this run — no exclusion list any more:
+    `Future` was the one exception and is repaired (fix commit 8bf73dd) -/
+theorem go_statements_recovered : goOK [] RoGen.Catalogue.table = true := by decide
 
-/-- full statement `goOK [] RoGen.Catalogue.table = true` fails on the pinned tree because of this
-    row (operator_creation.go:456, copied from the table regenerated on the pinned commit; the
-    theorem is about the copy so that repairing `Future` does not break the build — the live row
-    drives the driver's prediction for `op=Go:Future`, which is replayed in a child process) -/
-def futureGoStmtPinned : Facts.GoFact := { line := 456, kind := "go", recovered := false, callsUser := true, emits := true }
+/-- what a bare goroutine would mean at run time (the state of `Future` before 8bf73dd) -/
+theorem bare_goroutine_crashes (p : Err) : goBody false (some p) = .crash p := rfl
 
-theorem future_unrecovered_witness :
-    (!futureGoStmtPinned.callsUser || futureGoStmtPinned.recovered || ([] : List String).contains "Future") = false := by decide
+/-- (iii) `Future` as repaired: the factory's panic no longer kills the process, it goes to the
+    unhandled-error hook (unwrapped) — and the subscriber, who exists and could receive it, gets
+    neither an Error notification nor any other terminal -/
+theorem future_factory_panic_witness :
+    futureRun true (some (.user 5)) 1 = { res := .unhandled (.user 5), seen := [] } := by decide
 
-/-- (iii) what that means at run time -/
-theorem future_crash (p : Err) : goBody false (some p) = .crash p := rfl
+/-- … `_partial`: a factory that returns delivers `Next, Complete`, whatever the wrapper -/
+theorem future_partial (recovered : Bool) (v : Int) :
+    futureRun recovered none v = { res := .returned, seen := [.next {} v, .complete {}] } := rfl
 
 /-! ## deviation witnesses (each replayed on the real code, see known_findings.jsonl) -/
 
@@ -430,9 +433,10 @@ end Ro.C07
 #print axioms Ro.C07.map_fault
 #print axioms Ro.C07.goOK_sound
 #print axioms Ro.C07.go_user_code_never_crashes
-#print axioms Ro.C07.go_statements_recovered_partial
-#print axioms Ro.C07.future_unrecovered_witness
-#print axioms Ro.C07.future_crash
+#print axioms Ro.C07.go_statements_recovered
+#print axioms Ro.C07.bare_goroutine_crashes
+#print axioms Ro.C07.future_factory_panic_witness
+#print axioms Ro.C07.future_partial
 #print axioms Ro.C07.final_onNext_panic_witness
 #print axioms Ro.C07.final_onNext_panic_breaks_grammar
 #print axioms Ro.C07.throwIfEmpty_throw_panic_witness
